@@ -394,15 +394,21 @@ def _features(fn, db):
 
 
 def _continuation_flag_writes(fn):
-    """(statement, derived-from-the-line-end-test?) for every write of the backslash-continuation flag in a scanner"""
-    out = []
+    """(statement, derived-from-the-line-end-test?) for every write of the backslash-continuation flag in a scanner;
+    the flag is whatever is assigned from the `\\$` test on the line"""
+    def is_test(e):
+        return any(isinstance(c, ast.Call) and dotted(c.func) == "re.search" and str_value(c.args[0]) is not None and str_value(c.args[0]).replace(" ", "") == "\\\\$" for c in ast.walk(e))
+    derived = []
     for s in ast.walk(fn):
-        if isinstance(s, ast.Assign) and src(s.targets[0]) in ("state[backslashed]", "self.backslashed"):
-            v = s.value
-            direct = any(isinstance(c, ast.Call) and dotted(c.func) == "re.search" and str_value(c.args[0]) is not None and str_value(c.args[0]).replace(" ", "") == "\\\\$" for c in ast.walk(v))
+        if isinstance(s, ast.Assign) and isinstance(s.targets[0], (ast.Subscript, ast.Attribute, ast.Name)):
             guard = [a for a in ancestors(s) if isinstance(a, ast.If)]
-            guarded = bool(guard) and any(isinstance(c, ast.Call) and dotted(c.func) == "re.search" and str_value(c.args[0]) is not None and str_value(c.args[0]).replace(" ", "") == "\\\\$" for c in ast.walk(guard[0].test)) and isinstance(v, ast.Constant)
-            out.append((s, direct or guarded))
+            if is_test(s.value) or (guard and is_test(guard[0].test) and isinstance(s.value, ast.Constant) and isinstance(s.value.value, bool)):
+                derived.append(s)
+    flags = {src(s.targets[0]) for s in derived}
+    out = [(s, True) for s in derived]
+    for s in ast.walk(fn):
+        if isinstance(s, ast.Assign) and src(s.targets[0]) in flags and s not in derived:
+            out.append((s, False))
     return out
 
 
